@@ -55,7 +55,12 @@ def _sparksql_coalesce_expr(dbmodel, expression) -> str:
         Return one caes of coalesce.
         """
         assert isinstance(x, str)
-        return f" WHEN ({x} IS NOT NULL) AND (NOT isNaN({x})) THEN {x} "
+        # isNaN() casts its argument to DOUBLE: asked of numbers only (text fails the cast under ANSI mode, and 'NaN' is a text)
+        return (
+            f" WHEN ({x} IS NOT NULL) AND"
+            f" (CASE WHEN typeof({x}) IN ('double', 'float') THEN NOT isNaN({x}) ELSE TRUE END)"
+            f" THEN {x} "
+        )
 
     return (
         "CASE "
